@@ -86,7 +86,16 @@ fn gen_m1(ch: &mut Ch, thorough: bool) -> Option<Case> {
     let entry = *ch.of(entries);
     let derived = FOUR.to_vec();
     let combo = pick_combo4(ch, &derived, false)?;
-    let ts = container_spec(container, ctx, FieldSpec::cfg(combo, form_for(ctx)), KeyStyle::Distinct);
+    let mut cfgf = FieldSpec::cfg(combo, form_for(ctx));
+    // identity key `$` on one of the attributes carrying a key (none = slot default)
+    let keyed: Vec<Tr> = Tr::ALL.iter().copied().filter(|t| combo.get(*t).key()).collect();
+    if keyed.len() >= 2 {
+        let k = ch.pick(keyed.len() + 1);
+        if k > 0 {
+            cfgf.identity = Some(keyed[k - 1]);
+        }
+    }
+    let ts = container_spec(container, ctx, cfgf, KeyStyle::Distinct);
     Some(Case { gen: "m1", vector: ch.vector(), ts, derived, entry })
 }
 
@@ -144,7 +153,7 @@ fn gen_m3(ch: &mut Ch, thorough: bool) -> Option<Case> {
     for i in 0..n {
         let c = *ch.of(&alpha);
         let c = if flavour == 2 { c } else { c };
-        let mut f = FieldSpec { ty: FTy::V, dom: 3, combo: c, form: [KeyForm::Method, KeyForm::Twice, KeyForm::Nested][i % 3] };
+        let mut f = FieldSpec { ty: FTy::V, dom: 3, combo: c, form: [KeyForm::Method, KeyForm::Twice, KeyForm::Nested][i % 3], identity: None };
         if c.is_plain() || (!c.get(Ord).custom()) {
             // fields without key/by may have any type of the pool
             match flavour {
@@ -336,6 +345,7 @@ pub fn evaluate_cases(ctx: &Ctx, rep: &mut Report, cases: &[Case], hash_only: bo
                 let eff: Vec<Vec<(u8, u8)>> = vals.iter().map(|v| c.ts.variants[v.0].fields.iter().enumerate().filter_map(|(fi, f)| match select(&f.combo, Hash) {
                     Sel::Ignored => None,
                     Sel::Default => Some((0u8, v.1[fi])),
+                    Sel::Key(at) if f.identity == Some(at) => Some((3, v.1[fi])),
                     Sel::Key(at) => Some((1, proj(at, c.ts.style, v.1[fi]))),
                     Sel::By(at) => Some((2, proj(at, c.ts.style, v.1[fi]))),
                 }).collect()).collect();
